@@ -113,6 +113,9 @@ def formulasOps : String → Option (List String → String)
           " ".intercalate (names.map fun _ => v)
         | none => "ERR:proto"
       | _ => "ERR:proto"
+  | "algagree" => some fun a => match a with
+      | _xs :: _t :: names => " ".intercalate (names.map fun _ => "?")
+      | _ => "ERR:proto"
   | "algalpha_all" => some fun a => match a with
       | xs :: _t :: _a :: _ay :: _az :: names => match parseInt? xs with
         | some x =>
